@@ -31,6 +31,9 @@ pub fn scopes(rep: &Report, checks: Checks) {
     // D3: pairs of special strings in one container
     let pairs = pair_alphabet_trees();
     run_structures(rep, "string-pair pass: every ordered pair of the string alphabet side by side in 5 container shapes x {Top, All, 2 Custom}", &pairs, &pair_strategies, &cheap, checks, false);
+    // D4: wide containers (11 / 100 / 300 members or elements; two- and three-digit indices; > 255 disclosures)
+    let wide_cfgs = |i: usize| vec![Cfg::CHEAP, Cfg { fmt: crate::codec::Fmt::Json, alg: crate::keys::Alg::HS256, decoys: i % 2 == 0, hk: crate::keys::Hk::Es }];
+    run_structures_with(rep, "wide containers: arrays / objects of 11, 100, 300 entries x {NoSD, Top, All, 3 Custom with prefix-sharing indices/names} x 8-10 selections", &wide_trees(), &wide_strategies, &wide_selections, &wide_cfgs, checks);
     // E: depth chains
     let ch = chains(if quick { 6 } else { 8 });
     run_structures(rep, "depth chains: all object/array patterns of a single nested path", &ch, &few_strategies, &rot, checks, true);
